@@ -411,7 +411,15 @@ fn coerce_argument_value(
                 let object: HashMap<_, _> = object.iter().map(|(k, v)| (k, v)).collect();
                 let mut coerced_object = JsonMap::new();
                 for (field_name, field_def) in &ty_def.fields {
-                    if let Some(field_value) = object.get(field_name) {
+                    // https://spec.graphql.org/October2021/#sec-Input-Objects.Input-Coercion
+                    // A variable without a runtime value is treated as if the field was not provided:
+                    // `{ a: $var, b: 1 }` with `{}` variables coerces to `{ b: 1 }`
+                    let provided = object.get(field_name).filter(|value| {
+                        value
+                            .as_variable()
+                            .map_or(true, |var| ctx.variable_values.contains_key(var.as_str()))
+                    });
+                    if let Some(field_value) = provided {
                         let coerced_value = coerce_argument_value(
                             ctx,
                             path,
